@@ -814,10 +814,6 @@ def register_build(R):
 
         return f
 
-    def as_init(v, o):
-        t = v["result"]
-        return dict(self=t, comments=v["comments"]), dict(source=o["source"], comments=o["comments"])
-
     def frame_is_tree(E, v, o):
         t = v["result"]
         return isinstance(t, Obj) and t.cls is Tree
